@@ -288,15 +288,16 @@ def cases(tier, seed):
     cnt = 0
     for es, ts in combos:
       for mono in itertools.product([0, 1], repeat=3):
-        if _valid([2, 2, 2], list(mono), es, ts) and rng.random() < 0.15:
+        if _valid([2, 2, 2], list(mono), es, ts) and rng.random() < 0.9:
           lo = float(rng.integers(-8, 8)) / 4
           hi = lo + float(rng.integers(1, 16)) / 4
           b = [(None, None), (lo, hi), (lo, None), (None, hi)][int(rng.integers(0, 4))]
-          sizes = [[2, 2, 2], [3, 2, 2], [2, 3, 2], [2, 2, 3], [3, 3, 2]][int(rng.integers(0, 5))]
-          add(sizes=sizes, units=int(rng.integers(1, 3)), mono=list(mono), edge=es, trap=ts, omin=b[0], omax=b[1],
-              required=False, cap=600)
+          sizes = [[2, 2, 2], [3, 2, 2], [2, 3, 2], [2, 2, 3], [3, 3, 2], [3, 2, 3], [2, 3, 3], [3, 3, 3]][int(rng.integers(0, 8))]
+          via = dict(via='layer', final=True, strict=False) if rng.random() < 0.15 else {}
+          add(sizes=sizes, units=int(rng.integers(1, 4)), mono=list(mono), edge=es, trap=ts, omin=b[0], omax=b[1],
+              required=False, cap=600, **via)
           cnt += 1
-      if cnt >= 400:
+      if cnt >= 1500:
         break
     # rank 4 all-2
     add(sizes=[2, 2, 2, 2], units=1, mono=[1, 1, 0, 1], edge=[(0, 2, 1)], trap=[(1, 2, -1)], omin=0.0, omax=1.0,
